@@ -4,7 +4,7 @@ from harness.props._common import run_eval, replay_eval
 from harness import monitors
 
 PROPS_FILE = "P_C04"
-COQ_TARGETS = ["CaseLib", "CaseLibMcx", "LdmcsuModel", "QdmcuModel", "LdmcuInst", "AbcModel", "LdmcsuEig", "MultiTarget", "MultiTargetAll", "McuModel"]
+COQ_TARGETS = ["CaseLib", "CaseLibMcx", "LdmcsuModel", "QdmcuModel", "LdmcuInst", "AbcModel", "LdmcsuEig", "MultiTarget", "MultiTargetAll", "McuModel", "McuExtra"]
 RULE = ("contract monitors: every call of Qdmcu.custom_sqrtm (V unitary, V V = U: premises of C04_barenco_step) and of "
         "Ldmcsu._compute_gate_a (A unitary, (A^dagger X A X)^2 = U: conclusion of C04_gate_a_fourth_root in matrix form) made while "
         "building gates for boundary and random SU(2)/U(2) matrices and 2..6/9 controls is checked numerically at 1e-9; gate-list "
@@ -14,7 +14,8 @@ RULE = ("contract monitors: every call of Qdmcu.custom_sqrtm (V unitary, V V = U
         "(eigenbasis branch, k = 2..12/24) the flattened definition is compared with LdmcsuEig.eig and the four 2x2 identities that are the "
         "premises of C04_ldmcsu_eig are checked on the emitted one-qubit gates; MultiTargetMCSU2 on lists of rotations (k = 2..14/26 controls, 1-3 "
         "targets) is compared with MultiTarget.mtm and the per-target premises of C04_multitarget are checked; MCU with the error chosen so that "
-        "the base count equals the number of controls (T = 2..8/12) is compared with McuModel.mcu0 and its deviation with the root deviation; the flattened definition of "
+        "the base count equals the number of controls (T = 2..8/12) is compared with McuModel.mcu0, with extra controls (base 2..5/6, 1-3 extra) with "
+        "McuExtra.mcux, and the deviation with the root deviation; the flattened definition of "
         "Qdmcu(U, n, ctrl_state), n = 1..9/16, U(2) boundary and Haar matrices, is compared inside Coq with QdmcuModel.qdmcu (controlled V / "
         "V^dagger gates named by the custom_sqrtm iterate their base matrix equals, each checked to be the ideal controlled matrix; the "
         "premises of C04_qdmcu - V_(l+1)^2 = V_l, unitarity - are checked on the iterates); the flattened definition of Ldmcu(U, T, ctrl_state), "
@@ -26,7 +27,7 @@ RULE = ("contract monitors: every call of Qdmcu.custom_sqrtm (V unitary, V V = U
         "control pattern and boundary matrix. distinct = distinct (class, matrix, controls, pattern); non-trivial = k >= 2")
 ASSUMPTIONS = ["Qiskit's UnitaryGate(...).control(...) is the ideal controlled gate (validated numerically in the direct evaluation)",
                "the 2x2 identities that are premises of C04_qdmcu / C04_ldmcsu_* (square roots, unitarity) are checked numerically on the matrices the code computes",
-               "MCU with extra controls beyond the base count is evaluated, not proved"]
+               "the multi-target RX blocks inside MCU are compared numerically with the ideal multi-controlled rotations (blocks of at most 9 qubits)"]
 TRUSTED = ["harness/monitors.py"]
 X = np.array([[0, 1], [1, 0]], dtype=complex)
 
@@ -702,10 +703,131 @@ def mcu_correspondence(ctx):
     run_bool_cases(ctx, "c04_mcu", DHEADER.replace("LdmcuInst.", "LdmcuInst McuModel."), lines, cases, on_fail, shard=12)
 
 
+XHEADER = ("From Coq Require Import List Bool Arith ZArith.\nFrom QV Require Import McxModel CaseLib CaseLibMcx LdmcuCore McuExtra.\nImport ListNotations.\n"
+           "Definition vg_eqb (g h : vg) : bool := match g, h with VG cs t et z, VG cs' t' et' z' =>\n"
+           "  list_eqb Nat.eqb cs cs' && Nat.eqb t t' && Nat.eqb et et' && Z.eqb z z' end.\n"
+           "Definition xg_eqb (g h : xgate) : bool := match g, h with inl a, inl b => sgate_eqb a b | inr a, inr b => vg_eqb a b | _, _ => false end.\n"
+           "Definition canonz (tb : list (Z * Z)) (z : Z) : Z := match find (fun e => Z.eqb (fst e) z) tb with Some e => snd e | None => z end.\n"
+           "Definition cxg (T : nat) tb (g : xgate) : xgate := match g with\n"
+           "  | inr (VG cs t et z) => if Nat.eqb et T then inr (VG cs t et (canonz tb z)) else g | _ => g end.\n")
+
+
+def mcux_correspondence(ctx):
+    """MCU(U, T + e controls, error) with base count T and e >= 1 extra controls: the flattened definition (multi-target RX blocks kept
+    whole and checked to be the ideal multi-controlled rotations, then listed target by target) is compared inside Coq with
+    McuExtra.mcux e T pattern; premises of C04_mcu and the deviation are checked as for the base case."""
+    from qiskit.circuit import ControlledGate
+    from qiskit.quantum_info import Operator
+    from qclib.gates.mcu import MCU
+    from harness.flatten import flatten, coq_list, coq_bool
+    from harness.coqcases import run_bool_cases
+    from harness.props.c05 import pat_of, sgates_to_coq
+    tmax = 5 if ctx.quick else 6
+
+    def stop(op):
+        if isinstance(op, ControlledGate) and op.num_ctrl_qubits == 1 and op.num_qubits == 2 and op.name not in ("cx", "crx"):
+            return "cv"
+        if op.name.startswith("circuit-") and op.num_qubits >= 3:
+            return "mtblock"
+        return None
+
+    def rx(th):
+        return np.array([[np.cos(th / 2), -1j * np.sin(th / 2)], [-1j * np.sin(th / 2), np.cos(th / 2)]])
+    cases, lines = [], []
+    for T in range(2, tmax + 1):
+        for e in ((1, 2, 3) if T <= 4 else (1,)):
+            theta = float(ctx.rng.uniform(0.3, 3.0))
+            from scipy.stats import unitary_group
+            V = unitary_group.rvs(2, random_state=int(ctx.rng.integers(1 << 30)))
+            U = V @ np.diag([np.exp(0.05j), np.exp(1j * theta)]) @ V.conj().T
+            ang = np.angle(np.linalg.eigvals(U))
+            angle = ang[0] if (1 - np.cos(ang[0])) >= (1 - np.cos(ang[1])) else ang[1]
+            if angle <= 0:
+                continue
+            delta = angle / 2 ** (T - 1.5)
+            eps = float(np.sqrt(2 - 2 * np.cos(delta)))
+            nc = T + e
+            cs = None if ctx.rng.random() < 0.3 else "".join("1" if ctx.rng.random() < 0.5 else "0" for _ in range(nc))
+            try:
+                g = MCU(U, nc, error=eps, ctrl_state=cs)
+            except Exception as ex:
+                ctx.note(f"MCU raised {type(ex).__name__} for T={T} e={e}")
+                continue
+            if g.n_ctrl_base != T:
+                continue
+            fl, _ = flatten(g.definition, stop=stop)
+            case = {"class": "MCU", "k": nc, "base": T, "ctrl_state": cs, "error": eps, "matrix": [[str(z) for z in row] for row in U]}
+            cases.append(case)
+            ctx.count("corr:mcu_extra", key=("mcux", T, e, cs, U.tobytes()), nontrivial=True,
+                      sample={"class": "MCU", "k": nc, "base": T, "ctrl_state": cs, "gates": len(fl)} if (T, e) == (3, 2) else None)
+            ctx.max_struct_qubits = max(ctx.max_struct_qubits, nc + 1)
+            W = np.asarray(Operator(MCU._gate_u(U, 2 ** (T - 1), 1)).data)[np.ix_([1, 3], [1, 3])]
+            Wi = np.linalg.inv(W)
+            cands = [sg * 2 ** j for j in range(T) for sg in (1, -1)]
+            mat = {z: np.linalg.matrix_power(W if z > 0 else Wi, abs(z)) for z in cands}
+            rep_of = {}
+            for i, a in enumerate(cands):
+                rep_of[a] = next(b for b in cands[:i + 1] if np.abs(mat[a] - mat[b]).max() < 1e-13)
+            table = coq_list([f"(({a})%Z, ({rep_of[a]})%Z)" for a in cands])
+            items, nblock = [], 0
+            for name, qs, op in fl:
+                if name == "cv":
+                    B = np.asarray(Operator(op.base_gate).data)
+                    best = min(cands, key=lambda z: np.abs(B - mat[z]).max())
+                    zz = rep_of[best] if np.abs(B - mat[best]).max() < 1e-9 else 77777
+                    items.append(f"inr (VG [{qs[0]}] {qs[1]} {qs[1] - e} ({zz})%Z)")
+                elif name == "crx":
+                    th = float(op.params[0])
+                    ee = int(round(np.log2(np.pi / abs(th)))) if th != 0 else -1
+                    t = qs[1] - e
+                    if ee < 0 or np.pi / 2 ** ee != abs(th) or t - 1 - ee < 0:
+                        items.append(f"inr (VG [{qs[0]}] {qs[1]} {t} 88888%Z)")
+                    else:
+                        items.append(f"inr (VG [{qs[0]}] {qs[1]} {t} ({(1 if th > 0 else -1) * 2 ** (t - 1 - ee)})%Z)")
+                elif name == "mtblock":
+                    nblock += 1
+                    ctrl, tg = list(qs[: e + 1]), list(qs[e + 1:])
+                    sign = 1 if nblock == 1 else -1                      # sweep 1: + , sweep 3: -  (control 0, not first)
+                    # ideal block: on the basis states with all of ctrl = 1, RX(sign pi / 2^(t - e - 1)) on every target t
+                    ctx.monitor("mcu_multitarget_block_is_ideal")
+                    M = np.asarray(Operator(op).data)
+                    k_ = len(qs)
+                    ok_block = ctrl == list(range(e + 1)) and sorted(tg, reverse=True) == tg and k_ <= 9
+                    if ok_block:
+                        ref = np.eye(2 ** k_, dtype=complex)
+                        sub = np.array([[1.0 + 0j]])
+                        for pos_t in range(len(tg) - 1, -1, -1):          # local qubit e+1+pos_t is target tg[pos_t]; highest local qubit first
+                            sub = np.kron(sub, rx(sign * np.pi / 2 ** (tg[pos_t] - e - 1)))
+                        idx = [((1 << (e + 1)) - 1) | (j << (e + 1)) for j in range(2 ** len(tg))]
+                        ref[np.ix_(idx, idx)] = sub
+                        ok_block = np.abs(M - ref).max() < 1e-9
+                    if not ok_block:
+                        items.append("inl (SX 99996)")
+                    else:
+                        for t in tg:
+                            items.append(f"inr (VG {coq_list([str(q) for q in ctrl])} {t} {t - e} ({sign})%Z)")
+                else:
+                    items.append("inl (" + sgates_to_coq([(name, qs, op)])[1:-1] + ")")
+            ctx.monitor("mcu_theorem_premises")
+            if np.abs(W @ Wi - np.eye(2)).max() > 1e-9 or np.abs(np.linalg.matrix_power(W, 2 ** (T - 1)) - U).max() > 1e-9:
+                ctx.mismatch("C04 contract: the deepest root of MCU._gate_u does not satisfy W^(2^(T-1)) = U (premise of C04_mcu)", case)
+            ctx.monitor("mcu_deviation_is_root_deviation")
+            dev = float(np.linalg.norm(Wi - np.eye(2), 2))
+            if dev > eps + 1e-12:
+                ctx.mismatch(f"C04 contract: MCU root deviation {dev:.3e} exceeds the requested error {eps:.3e}", case)
+            model = f"(map (cxg {T} {table}) (mcux {e} {T} {coq_list([coq_bool(b) for b in pat_of(cs, nc)])}))"
+            lines.append(f"(list_eqb xg_eqb {model} {coq_list(items)})")
+
+    def on_fail(c):
+        ctx.mismatch("C04 correspondence: flattened MCU definition (extra controls) differs from the Coq model McuExtra.mcux", c)
+    run_bool_cases(ctx, "c04_mcux", XHEADER, lines, cases, on_fail, shard=6)
+
+
 def run(ctx):
     monitor_run(ctx)
     ldmcsu_correspondence(ctx)
     mcu_correspondence(ctx)
+    mcux_correspondence(ctx)
     eig_correspondence(ctx)
     multitarget_correspondence(ctx)
     qdmcu_correspondence(ctx)
@@ -723,7 +845,7 @@ def replay(ctx, case):
 
 
 MANIFEST = dict(
-    text="Proof (PARTIAL): MCU (the approximate gate) when the base count equals the number of controls: its exact operator is the ideal gate times W^-1 on the target whenever control 0 matches (C04_mcu_base, same machinery as Ldmcu), so its deviation from the ideal operator is that of the deepest root from the identity, bounded by the requested error when theta/2^(T-1) <= arccos(1 - eps^2/2) (C04_mcu_root_deviation); MultiTargetMCSU2 for every k >= 2 controls, any number of targets, every pattern: the operator is the product over the targets of the controlled U_i (C04_multitarget: multi-target V-chains on arbitrary placements via the general placement theorem, rows of per-target gates regrouped column by column - Transpose.transpose -, the one-target identity per column); Ldmcsu's eigenbasis branch (both diagonals complex) for every k >= 2 and every pattern, given four 2x2 identities on the emitted one-qubit gates (C04_ldmcsu_eig: the action_only V-chain and its inverse cancel their residue across the gates between them); LdMcSpecialUnitary end to end for every k >= 1 controls and every pattern given the ABC identities on the matrices (C04_ldmc_special: controlled C, LinearMcx onto the target borrowing the last control - action_only from six controls on -, controlled B, the inverse LinearMcx, controlled A, each controlled gate a nested a ; cx ; b ; cx ; c block); Ldmcu end to end for every T >= 1 controls, every control pattern and every invertible W (C04_ldmcu): the gate list in the order the code emits it - four sweeps of controlled RX(+-pi/2^e) and controlled roots of U over the pairs (control, target) sorted stably by control + target - applies W^(2^(T-1)) = U to the target exactly on the matching basis states and restores every control with its phase; proof = trace equivalence of the sorted sweeps with their grouped form (Resort.resort), merging of the gates of one target in a one-parameter group, the cascade 'flip qubit j iff all lower qubits are 1' by induction (LdmcuCore.Sl_sem, Sl'_sem) and the weight identity C04_ldmcu_weights; Qdmcu end to end for every number of controls, every control pattern and every 2x2 matrix family with V_(l+1)^2 = V_l, V_l V_l^dagger = 1: the gate list of QdmcuModel.qdmcu (controlled V, action-only LinearMcx on the lower controls with the target as dirty ancilla, controlled V^dagger, the inverse LinearMcx, recursion on the remaining controls with the next square root) applies U to the target exactly on the basis states matching the pattern and the identity elsewhere (C04_qdmcu; it rests on the exact LinearMcx for every k >= 1 and every pattern, C04_linear_mcx_exact, on the factorisation exact = controls-only circuit after action-only, and on a polarity version of Barenco Lemma 7.5); the spectral square root squares to the matrix (C04_spectral_sqrt); the recursion step of Qdmcu (Barenco Lemma 7.5) for any placement and any 'rest' predicate (C04_barenco_step), and the fourth-root identity of Ldmcsu._compute_gate_a over the reals (C04_gate_a_fourth_root); Ldmcsu end to end for every k >= 2, every control pattern and every SU(2) matrix with a real main or secondary diagonal: the gate list of LdmcsuModel.ldmcsu (two dirty V-chains, their inverses, A / A^dagger, optional H conjugation) applies U to the target exactly on the basis states matching the pattern and the identity elsewhere (C04_ldmcsu_plain, C04_ldmcsu_hconj, built on C05's placed V-chain theorems). Tie: the flattened Ldmcu, Ldmcsu (both branches), LdMcSpecialUnitary, MultiTargetMCSU2 and Qdmcu definitions are compared with the models' gate lists inside Coq; every custom_sqrtm and _compute_gate_a call made while building gates for boundary and random SU(2) matrices is checked against the theorem's premises/conclusion in matrix form. All gate classes (Ldmcu, Ldmcsu, LdMcSpecialUnitary, Qdmcu, Mcg, MCU, MultiTargetMCSU2), patterns and boundary matrices are evaluated against the ideal controlled operator.",
-    note='Modelled, not verified: Qiskit .control(), UnitaryGate; scipy schur inside custom_sqrtm (its output is checked, not modelled) and inside Ldmcu._gate_u (its roots are checked to be integer powers of the deepest root); numpy eig inside the eigenbasis branch of Ldmcsu (the identities it must deliver are checked), the ZYZ angles behind the ABC operators (their identities are checked), MCU with extra controls beyond the base count and the one-control branches of the special-unitary gates are evaluated only.',
+    text="Proof (PARTIAL): MCU (the approximate gate), every base count T >= 1 and every number e >= 0 of extra controls: its exact operator is the ideal gate times W^-1 on the target whenever the first e+1 controls match (C04_mcu_base for e = 0, C04_mcu for e >= 1: the sweep with the collected control-0 rotations denotes the same grouped form, and a conjunction of never-targeted qubits stands in for a control), so its deviation from the ideal operator is that of the deepest root from the identity, bounded by the requested error when theta/2^(T-1) <= arccos(1 - eps^2/2) (C04_mcu_root_deviation); MultiTargetMCSU2 for every k >= 2 controls, any number of targets, every pattern: the operator is the product over the targets of the controlled U_i (C04_multitarget: multi-target V-chains on arbitrary placements via the general placement theorem, rows of per-target gates regrouped column by column - Transpose.transpose -, the one-target identity per column); Ldmcsu's eigenbasis branch (both diagonals complex) for every k >= 2 and every pattern, given four 2x2 identities on the emitted one-qubit gates (C04_ldmcsu_eig: the action_only V-chain and its inverse cancel their residue across the gates between them); LdMcSpecialUnitary end to end for every k >= 1 controls and every pattern given the ABC identities on the matrices (C04_ldmc_special: controlled C, LinearMcx onto the target borrowing the last control - action_only from six controls on -, controlled B, the inverse LinearMcx, controlled A, each controlled gate a nested a ; cx ; b ; cx ; c block); Ldmcu end to end for every T >= 1 controls, every control pattern and every invertible W (C04_ldmcu): the gate list in the order the code emits it - four sweeps of controlled RX(+-pi/2^e) and controlled roots of U over the pairs (control, target) sorted stably by control + target - applies W^(2^(T-1)) = U to the target exactly on the matching basis states and restores every control with its phase; proof = trace equivalence of the sorted sweeps with their grouped form (Resort.resort), merging of the gates of one target in a one-parameter group, the cascade 'flip qubit j iff all lower qubits are 1' by induction (LdmcuCore.Sl_sem, Sl'_sem) and the weight identity C04_ldmcu_weights; Qdmcu end to end for every number of controls, every control pattern and every 2x2 matrix family with V_(l+1)^2 = V_l, V_l V_l^dagger = 1: the gate list of QdmcuModel.qdmcu (controlled V, action-only LinearMcx on the lower controls with the target as dirty ancilla, controlled V^dagger, the inverse LinearMcx, recursion on the remaining controls with the next square root) applies U to the target exactly on the basis states matching the pattern and the identity elsewhere (C04_qdmcu; it rests on the exact LinearMcx for every k >= 1 and every pattern, C04_linear_mcx_exact, on the factorisation exact = controls-only circuit after action-only, and on a polarity version of Barenco Lemma 7.5); the spectral square root squares to the matrix (C04_spectral_sqrt); the recursion step of Qdmcu (Barenco Lemma 7.5) for any placement and any 'rest' predicate (C04_barenco_step), and the fourth-root identity of Ldmcsu._compute_gate_a over the reals (C04_gate_a_fourth_root); Ldmcsu end to end for every k >= 2, every control pattern and every SU(2) matrix with a real main or secondary diagonal: the gate list of LdmcsuModel.ldmcsu (two dirty V-chains, their inverses, A / A^dagger, optional H conjugation) applies U to the target exactly on the basis states matching the pattern and the identity elsewhere (C04_ldmcsu_plain, C04_ldmcsu_hconj, built on C05's placed V-chain theorems). Tie: the flattened Ldmcu, Ldmcsu (both branches), LdMcSpecialUnitary, MultiTargetMCSU2 and Qdmcu definitions are compared with the models' gate lists inside Coq; every custom_sqrtm and _compute_gate_a call made while building gates for boundary and random SU(2) matrices is checked against the theorem's premises/conclusion in matrix form. All gate classes (Ldmcu, Ldmcsu, LdMcSpecialUnitary, Qdmcu, Mcg, MCU, MultiTargetMCSU2), patterns and boundary matrices are evaluated against the ideal controlled operator.",
+    note='Modelled, not verified: Qiskit .control(), UnitaryGate; scipy schur inside custom_sqrtm (its output is checked, not modelled) and inside Ldmcu._gate_u (its roots are checked to be integer powers of the deepest root); numpy eig inside the eigenbasis branch of Ldmcsu (the identities it must deliver are checked), the ZYZ angles behind the ABC operators (their identities are checked), the multi-target RX blocks inside MCU are taken as ideal after a numerical check (their decomposition is the subject of C04_multitarget); the one-control branches of the special-unitary gates are evaluated only.',
     technique='Coq proof (operator algebra on monomial/permuted states; trace equivalence of commuting gate orders; one-parameter groups; real sqrt algebra) + runtime contract monitors + operator / random-state evaluation',
     design_ref='DESIGN.md section 4, C04')
